@@ -192,22 +192,39 @@ func isWordChar(c byte) bool {
 	return c == '_' || (c >= '0' && c <= '9') || (c >= 'a' && c <= 'z') || (c >= 'A' && c <= 'Z')
 }
 
+// A statement whose text starts with a sign would be read as the continuation of the previous
+// statement, whatever whitespace or newline separates them (x \n -1 is x-1, x \n ++y is x++; y).
+// Such a statement was parenthesized in the source; it gets its parentheses back.
+func startsWithSign(text string) bool {
+	return text != "" && (text[0] == '-' || text[0] == '+' || text[0] == '^')
+}
+
 // Without a separator, would the text of the next statement be read as a continuation of the previous
 // one? Two words/numbers would merge (x y -> xy, 129 13850 -> 12913850), and a statement starting with
-// ( [ . or a sign would turn into a call, an index, a fraction or a binary operation on the previous one.
+// ( [ or . would turn into a call, an index or a fraction of the previous one.
 func gluesToPrevious(last string, first byte) bool {
 	if last == "" {
 		return false
 	}
 	switch first {
-	case '(', '[', '.', '-', '+', '^':
+	case '(', '[', '.':
 		return true
 	}
 	return isWordChar(last[len(last)-1]) && isWordChar(first)
 }
 
+// printToScratch prints one statement to a buffer instead of the output, so that the caller can
+// look at how it starts before emitting it.
+func printToScratch(ps *PrintState, s Node) string {
+	out := ps.Out
+	buf := strings.Builder{}
+	ps.Out = &buf
+	s.PrettyPrint(ps)
+	ps.Out = out
+	return buf.String()
+}
+
 // Compact mode: Skip comments and decide if we need a space separator or not.
-// The statement is printed to a scratch buffer first, so we can see how it starts.
 func prettyPrintCompact(ps *PrintState, s Node, i int) bool {
 	if isComment(s) {
 		return true
@@ -216,16 +233,14 @@ func prettyPrintCompact(ps *PrintState, s Node, i int) bool {
 	_, curIsArray := s.(*ArrayLiteral)
 	needSpace := curIsArray || (prevIsExpr && ps.last != "}" && ps.last != "]")
 	last := ps.last
-	out := ps.Out
-	buf := strings.Builder{}
-	ps.Out = &buf
-	s.PrettyPrint(ps)
-	ps.Out = out
-	text := buf.String()
-	if i > 0 && text != "" && (needSpace || gluesToPrevious(last, text[0])) {
-		_, _ = out.Write([]byte{' '})
+	text := printToScratch(ps, s)
+	if i > 0 && startsWithSign(text) {
+		text = "(" + text + ")"
 	}
-	_, _ = out.Write([]byte(text))
+	if i > 0 && text != "" && (needSpace || gluesToPrevious(last, text[0])) {
+		_, _ = ps.Out.Write([]byte{' '})
+	}
+	_, _ = ps.Out.Write([]byte(text))
 	return false
 }
 
@@ -488,12 +503,23 @@ func (ie IfExpression) printElse(out *PrintState) {
 	} else {
 		out.Print(" else ")
 	}
-	if len(ie.Alternative.Statements) == 1 && ie.Alternative.Statements[0].Value().Type() == token.IF {
+	stmts := ie.Alternative.Statements
+	if out.Compact {
+		// compact mode drops comments: decide on what will actually be printed, so that
+		// else { /* c */ if x {..} } prints the same as its own output else if x {..} does.
+		stmts = nil
+		for _, s := range ie.Alternative.Statements {
+			if !isComment(s) {
+				stmts = append(stmts, s)
+			}
+		}
+	}
+	if len(stmts) == 1 && stmts[0].Value().Type() == token.IF {
 		// else if
 		if out.Compact {
 			out.Print(" ")
 		}
-		ie.Alternative.Statements[0].PrettyPrint(out)
+		stmts[0].PrettyPrint(out)
 		return
 	}
 	ie.Alternative.PrettyPrint(out)
